@@ -4,15 +4,19 @@
 (*                                                                           *)
 (* A Python value is a triple <<tag, sub, payload>>:                         *)
 (*   tag  None bool int big float fnz fnan finf str bytes bytearray list     *)
-(*        tuple set frozenset dict type types                                *)
+(*        tuple set frozenset dict type types exc                            *)
 (*   sub  ""  exact builtin type, "S" plain subclass, "O" subclass whose     *)
 (*        optimised methods are overridden (return 'ovr', __len__ = 7)       *)
 (*   payload  int: the number; big: +-1 = +-2^70, +-2 = +-(2^32+65);         *)
 (*        float: quarters; str/bytes/bytearray: code points / byte values;   *)
 (*        list/tuple: sequence of values; set/frozenset: set of values;      *)
-(*        dict: sequence of <<key, value>>; type(s): sequence of type names  *)
+(*        dict: sequence of <<key, value>>; type(s): sequence of type names; *)
+(*        exc: <<class name, argument>> = an exception instance cls(arg)     *)
 (* One state per case (shape, args); the state carries the outcome           *)
-(* <<"v", value>> | <<"e", exception type>> and the receiver after the call. *)
+(* <<"v", value>> | <<"e", exception type, payload>> and the receiver after  *)
+(* the call.  payload = <<"args", values>> where the exception carries data  *)
+(* of the call (KeyError(key); Unicode errors: object, start, end), and      *)
+(* <<"msg", <<>>>> where its arguments are message text (not modelled).      *)
 (* Every shape is defined by guarded branches; TLC checks that exactly one   *)
 (* branch applies (Functional), that outcomes are well formed (WellFormed),  *)
 (* and declarative laws tying the operators together (Laws).  All states     *)
@@ -52,14 +56,18 @@ WithPay(v, p) == <<v[1], v[2], p>>
 Ovr == St(<<111, 118, 114>>)          \* 'ovr'
 AnyPost == <<"any", "", 0>>           \* receiver state left unspecified by the reference
 
+Ex(n, v) == <<"exc", "", <<n, v>>>>    \* the exception instance n(v)
 Val(v) == <<"v", v>>
-Exc(n) == <<"e", n>>
+MsgArgs == <<"msg", <<>>>>
+Exc(n) == <<"e", n, MsgArgs>>
+ExcArgs(n, vs) == <<"e", n, <<"args", vs>>>>
 TE == Exc("TypeError")
 AE == Exc("AttributeError")
 VE == Exc("ValueError")
 IE == Exc("IndexError")
 KE == Exc("KeyError")
 OE == Exc("OverflowError")
+KEk(k) == ExcArgs("KeyError", <<k>>)   \* the lookup errors carry the missing key: KeyError(key).args = (key,)
 
 \* guarded branch: the outcome expression is evaluated only when the guard holds
 Br(g, o) == IF g THEN {o} ELSE {}
@@ -103,7 +111,7 @@ PyEq(a, b) ==
          [] Kind(a) = "set" -> /\ \A x \in Pay(a) : \E y \in Pay(b) : PyEq(x, y)
                                /\ \A y \in Pay(b) : \E x \in Pay(a) : PyEq(x, y)
          [] Kind(a) = "None" -> TRUE
-         [] OTHER -> Pay(a) = Pay(b)
+         [] OTHER -> Pay(a) = Pay(b)      \* exc: identity; a pool value stands for one object, so equal payloads = the same object
 
 RECURSIVE Hashable(_)
 Hashable(v) == CASE Tag(v) \in {"list", "set", "dict", "bytearray"} -> FALSE
@@ -354,10 +362,10 @@ DictSetDefault(d, k, dflt) == IF ~Hashable(k) THEN <<TE, d>>
                                    IF i = 0 THEN <<Val(dflt), WithPay(d, Append(Pay(d), <<k, dflt>>))>>
                                    ELSE <<Val(Pay(d)[i][2]), d>>
 \* has = a default was given
-DictPop(d, k, has, dflt) == IF Pay(d) = <<>> THEN <<IF has THEN Val(dflt) ELSE KE, d>>      \* an empty dict does not hash the key
+DictPop(d, k, has, dflt) == IF Pay(d) = <<>> THEN <<IF has THEN Val(dflt) ELSE KEk(k), d>>   \* an empty dict does not hash the key
                             ELSE IF ~Hashable(k) THEN <<TE, d>>
                             ELSE LET i == DictIdx(Pay(d), k, 1) IN
-                                 IF i = 0 THEN <<IF has THEN Val(dflt) ELSE KE, d>>
+                                 IF i = 0 THEN <<IF has THEN Val(dflt) ELSE KEk(k), d>>
                                  ELSE <<Val(Pay(d)[i][2]), WithPay(d, RemoveAt(Pay(d), i))>>
 
 \* list.pop(i) / bytearray.pop(i) on payload p with element constructor
@@ -392,6 +400,17 @@ D_d_pop1(a) == LET d == a[1] IN Br(IsDictR(d), DictPop(d, a[2], FALSE, None)) \c
 D_d_pop2(a) == LET d == a[1] IN Br(IsDictR(d), DictPop(d, a[2], TRUE, a[3])) \cup Br(IsO(d), <<Val(Ovr), d>>)
                                 \cup Br(IsListR(d), <<TE, d>>)
                                 \cup Br(Tag(d) \notin {"dict", "list"}, <<AE, d>>)
+\* d[k]: dict lookup (missing: KeyError(k)), list / tuple / str / bytes indexing, others not subscriptable
+SeqItem(x, k) == LET c == AsIndex(k) n == Len(Pay(x)) IN
+                 IF c[1] = "te" THEN TE
+                 ELSE IF c[1] = "big" THEN IE
+                 ELSE LET j == IF c[2] < 0 THEN c[2] + n ELSE c[2] IN
+                      IF j < 0 \/ j >= n THEN IE ELSE Val(Pay(x)[j + 1])
+D_d_getitem(a) == LET d == a[1] k == a[2] IN
+                  Br(Tag(d) = "dict", <<IF ~Hashable(k) THEN TE
+                                        ELSE LET i == DictIdx(Pay(d), k, 1) IN IF i = 0 THEN KEk(k) ELSE Val(Pay(d)[i][2]), d>>)
+                  \cup Br(Tag(d) = "list", <<SeqItem(d, k), d>>)
+                  \cup Br(Tag(d) \notin {"dict", "list"}, <<TE, d>>)
 D_d_contains(a) == LET d == a[1] k == a[2] IN
                    Br(Tag(d) = "dict", <<IF ~Hashable(k) THEN TE ELSE Val(Bo(DictIdx(Pay(d), k, 1) # 0)), d>>)
                    \cup Br(Tag(d) = "list", <<Val(Bo(Member(Pay(d), k))), d>>)
@@ -472,7 +491,7 @@ D_s_discard(a) == LET s == a[1] v == a[2] IN
               \cup Br(IsO(s), <<Val(Ovr), s>>) \cup Br(Tag(s) # "set", <<AE, s>>)
 D_s_remove(a) == LET s == a[1] v == a[2] IN
               Br(IsSetR(s), IF ~SetKeyOK(v) THEN <<TE, s>>
-                            ELSE IF SetFind(Pay(s), v) = {} THEN <<KE, s>>
+                            ELSE IF SetFind(Pay(s), v) = {} THEN <<KEk(v), s>>      \* the key as passed (a set stays a set)
                             ELSE <<Val(None), WithPay(s, Pay(s) \ SetFind(Pay(s), v))>>)
               \cup Br(IsO(s), <<Val(Ovr), s>>) \cup Br(Tag(s) # "set", <<AE, s>>)
 D_s_contains(a) == LET s == a[1] v == a[2] IN
@@ -886,8 +905,12 @@ Dicts == {D0, D1, D2, Sub(D1, "S"), Sub(D1, "O")} \cup L2({DT})
 AnyV == {None, I(0), I(1), I(-1), Bo(TRUE), Bo(FALSE), Fl(6), NZ, NaN, Big(1), SE, SA, SAB, Sub(SAB, "S"), Sub(SAB, "O"),
          BE, BA, BaAB, L0, L1, L213, Sub(L12, "S"), Sub(L12, "O"), T0, T12, Set0, Set1, FSet1, D0, D1, Sub(D1, "S"), Sub(D1, "O")}
         \cup L2({Ty("list"), Sub(I(3), "S"), Sub(Fl(4), "S"), Sub(BAB, "S"), Sub(Set1, "S"), Sub(T12, "S")})
-Keys == {None, I(1), Bo(TRUE), Fl(4), St(<<107>>), SA, L0, Tu(<<I(1)>>), Set1, FSet1, D0} \cup L2({Big(1), Tu(<<L0>>), I(2), Sub(I(1), "S")})
-Idx == {I(0), I(1), I(-1), I(2), I(-3), I(3), Big(1), None, Fl(4), Bo(TRUE)}
+\* T0, T12, None and the exception instances: the keys that PyErr_SetObject(KeyError, key) would not turn into KeyError(key)
+XKey == Ex("KeyError", St(<<105>>))
+XVal == Ex("ValueError", St(<<105>>))
+Keys == {None, I(1), Bo(TRUE), Fl(4), St(<<107>>), SA, L0, Tu(<<I(1)>>), Set1, FSet1, D0, T0, XKey, XVal}
+        \cup L2({Big(1), Tu(<<L0>>), I(2), Sub(I(1), "S"), T12, Sub(Tu(<<I(1)>>), "S"), Ex("LookupError", I(1)), Sub(XKey, "S"), Ex("KeyError", None)})
+Idx == {I(0), I(1), I(-1), I(2), I(-3), I(3), Big(1), None, Fl(4), Bo(TRUE), T0, XKey}      \* T0, XKey: keys of x.pop(k) on a dict
        \cup L2({I(100), I(-100), Big(-1), Big(2), Big(-2), SA, Sub(I(1), "S"), I(-2)})
 SIdx == {I(0), I(1), I(-1), I(2), I(3), I(-100), Big(1), None} \cup L2({I(-2), I(5), Big(-1), Big(2), Fl(4), Bo(TRUE)})
 Prefs == {SE, SA, SAB, SB, St(<<233>>), BA, None, Tu(<<St(<<120>>), SA>>), Tu(<<SA, I(1)>>), Tu(<<I(1), SA>>)}
@@ -979,7 +1002,7 @@ ShapeTable == <<
   <<"d_get1", "dict", P2(DictRecv, Keys)>>, <<"d_get2", "dict", P3(DictRecv, Keys, {None, I(7)})>>,
   <<"d_setdefault1", "dict", P2(DictRecv, Keys)>>, <<"d_setdefault2", "dict", P3(DictRecv, Keys, {I(7), L0})>>,
   <<"d_pop1", "dict", P2(DictRecv, Keys)>>, <<"d_pop2", "dict", P3(DictRecv, Keys, {None, I(7)})>>,
-  <<"d_contains", "dict", P2(DictRecv \cup {I(1)}, Keys)>>,
+  <<"d_contains", "dict", P2(DictRecv \cup {I(1)}, Keys)>>, <<"d_getitem", "dict", P2(DictRecv \cup {I(1)}, Keys)>>,
   <<"d_keys", "dict", P1(DictRecv \cup {SA})>>, <<"d_values", "dict", P1(DictRecv \cup {SA})>>, <<"d_items", "dict", P1(DictRecv \cup {SA})>>,
   <<"d_copy", "dict", P1(DictRecv \cup {T12})>>, <<"d_clear", "dict", P1(DictRecv \cup {T12})>>,
   <<"d_update", "dict", P2(Dicts \cup {None, T12}, {D0, D2, Sub(D1, "O"), TPairs, LPair, LBad1, LBad2, LUnh, None, I(1), L0, Di(<<<<Bo(TRUE), I(9)>>>>)})>>,
@@ -1043,7 +1066,7 @@ Ref(sh, a) ==
     [] sh \in {"sorted", "sortedgen"} -> D_sorted(a)
     [] sh = "d_get1" -> D_d_get1(a) [] sh = "d_get2" -> D_d_get2(a)
     [] sh = "d_setdefault1" -> D_d_setdefault1(a) [] sh = "d_setdefault2" -> D_d_setdefault2(a)
-    [] sh = "d_pop1" -> D_d_pop1(a) [] sh = "d_pop2" -> D_d_pop2(a) [] sh = "d_contains" -> D_d_contains(a)
+    [] sh = "d_pop1" -> D_d_pop1(a) [] sh = "d_pop2" -> D_d_pop2(a) [] sh = "d_contains" -> D_d_contains(a) [] sh = "d_getitem" -> D_d_getitem(a)
     [] sh = "d_keys" -> D_d_keys(a) [] sh = "d_values" -> D_d_values(a) [] sh = "d_items" -> D_d_items(a)
     [] sh = "d_copy" -> D_d_copy(a) [] sh = "d_clear" -> D_d_clear(a) [] sh = "d_update" -> D_d_update(a)
     [] sh = "l_append" -> D_l_append_stmt(a) [] sh = "l_append_r" -> D_l_append(a)
@@ -1090,7 +1113,7 @@ TheOut == CHOOSE r \in outs : TRUE
 
 ExcNames == {"TypeError", "AttributeError", "ValueError", "IndexError", "KeyError", "OverflowError", "LookupError",
              "UnicodeEncodeError", "UnicodeDecodeError"}
-AllTags == NumTags \cup {"None", "str", "bytes", "bytearray", "list", "tuple", "set", "frozenset", "dict", "type", "types", "any"}
+AllTags == NumTags \cup {"None", "str", "bytes", "bytearray", "list", "tuple", "set", "frozenset", "dict", "type", "types", "any", "exc"}
 RECURSIVE WFValue(_)
 WFValue(v) == /\ Tag(v) \in AllTags /\ SubOf(v) \in {"", "S", "O"}
               /\ CASE Tag(v) \in {"list", "tuple"} -> \A i \in 1..Len(Pay(v)) : WFValue(Pay(v)[i])
@@ -1098,9 +1121,13 @@ WFValue(v) == /\ Tag(v) \in AllTags /\ SubOf(v) \in {"", "S", "O"}
                    [] Tag(v) = "dict" -> \A i \in 1..Len(Pay(v)) : WFValue(Pay(v)[i][1]) /\ WFValue(Pay(v)[i][2]) /\ Hashable(Pay(v)[i][1])
                    [] Tag(v) \in {"str"} -> \A i \in 1..Len(Pay(v)) : Pay(v)[i] \in 0..1114111
                    [] Tag(v) \in {"bytes", "bytearray"} -> \A i \in 1..Len(Pay(v)) : Pay(v)[i] \in 0..255
+                   [] Tag(v) = "exc" -> Pay(v)[1] \in ExcNames /\ WFValue(Pay(v)[2]) /\ SubOf(v) # "O"
                    [] OTHER -> TRUE
 WellFormed == \A r \in outs : /\ r[1][1] \in {"v", "e"}
-                              /\ (r[1][1] = "e" => r[1][2] \in ExcNames)
+                              /\ (r[1][1] = "e" => /\ r[1][2] \in ExcNames
+                                                    /\ r[1][3][1] \in {"msg", "args"}
+                                                    /\ (r[1][3][1] = "msg" => r[1][3][2] = <<>>)
+                                                    /\ \A i \in 1..Len(r[1][3][2]) : WFValue(r[1][3][2][i]))
                               /\ (r[1][1] = "v" => WFValue(r[1][2]))
                               /\ WFValue(r[2])
 
@@ -1161,11 +1188,34 @@ ListLaw == /\ (shape \in {"l_pop0", "l_pop1"} /\ IsV /\ IsListR(X1)) => Len(Pay(
                  /\ Len(Pay(TheOut[2])) = Len(Pay(X1)) + 1
                  /\ \E j \in 1..Len(Pay(TheOut[2])) : Pay(TheOut[2])[j] = args[3] /\ RemoveAt(Pay(TheOut[2]), j) = Pay(X1)
            /\ (shape = "l_reverse" /\ IsListR(X1)) => Rev(Pay(TheOut[2])) = Pay(X1)
+\* Exceptions that carry the key.  Transcription of how a C helper raises: PyErr_SetObject(cls, v) followed by normalisation
+\* builds cls() for None, cls(*v) for a tuple (subclass), raises v itself when v is an instance of cls, cls(v) otherwise.
+ExcBases(n) == CASE n = "KeyError" -> {"KeyError", "LookupError"}
+                 [] n = "IndexError" -> {"IndexError", "LookupError"}
+                 [] n \in {"UnicodeEncodeError", "UnicodeDecodeError"} -> {n, "ValueError"}
+                 [] OTHER -> {n}
+SetObject(cls, v) == CASE IsNone(v) -> <<"args", <<>>>>
+                       [] Tag(v) = "tuple" -> <<"args", Pay(v)>>
+                       [] Tag(v) = "exc" /\ cls \in ExcBases(Pay(v)[1]) -> <<"is", <<v>>>>
+                       [] OTHER -> <<"args", <<v>>>>
+KeyClass(v) == CASE IsNone(v) -> "none"
+                 [] Tag(v) = "tuple" -> "tuple"
+                 [] Tag(v) = "exc" /\ "KeyError" \in ExcBases(Pay(v)[1]) -> "exc"
+                 [] OTHER -> "plain"
+KeyedShapes == {"d_pop1", "l_pop1", "d_getitem", "s_remove"}
+IsKeyed == O1[1] = "e" /\ O1[2] = "KeyError" /\ O1[3][1] = "args"
+\* a lookup by key that fails with KeyError reports exactly the key that was passed; packing the key into a 1-tuple is right for
+\* every key, handing the bare key to PyErr_SetObject is right for the plain class only
+KeyLaw == /\ IsKeyed => shape \in KeyedShapes /\ O1[3] = <<"args", <<args[2]>>>>
+          /\ (shape \in KeyedShapes /\ O1[1] = "e" /\ O1[2] = "KeyError") => IsKeyed
+          /\ IsKeyed => /\ SetObject("KeyError", Tu(<<args[2]>>)) = O1[3]
+                        /\ (KeyClass(args[2]) = "plain") <=> (SetObject("KeyError", args[2]) = O1[3])
 \* len agrees with list(): the number of items iteration yields (exact types)
 LenLaw == (shape = "len" /\ IsV /\ ~IsO(X1)) => Pay(RV) = Len(Iter(X1))
 Laws == /\ SortedLaw /\ MinMaxLaw /\ SetLaw /\ FindLaw /\ TailLaw /\ CountLaw /\ SplitLaw /\ ReplaceLaw /\ LinesLaw /\ CodecLaw
-        /\ DictLaw /\ ListLaw /\ LenLaw
+        /\ DictLaw /\ ListLaw /\ LenLaw /\ KeyLaw
 
 (* publication: one record per case *)
-Publish == Dump => PrintT("@@" \o ToJson([shape |-> shape, args |-> args, o |-> TheOut[1], post |-> TheOut[2]]))
+Publish == Dump => PrintT("@@" \o ToJson([shape |-> shape, args |-> args, o |-> TheOut[1], post |-> TheOut[2],
+                                           kc |-> IF IsKeyed THEN KeyClass(args[2]) ELSE ""]))
 =============================================================================
